@@ -30,10 +30,15 @@ void add_bystander_pre(Plan &p) {
   { Op o = mk(2, OP_DEFINE); o.grammar = 0; p.ops.push_back(o); }
   { Op o = mk(2, OP_PARSE); o.input = 0; o.alloc = AM_CUSTOM_FREE; p.ops.push_back(o); }
 }
-void add_post(Plan &p) {
-  // the struck object can be freed, the bystander and a new object behave like fresh ones
+void add_post(Plan &p, int reuse /*0 none, 1 define again, 2 parse again*/) {
+  // the struck object can be used again and freed, the bystander and a new object behave like fresh ones
   { Op o = mk(2, OP_PARSE); o.input = 0; o.alloc = AM_DEFAULT; p.ops.push_back(o); }
   p.ops.push_back(mk(1, OP_ERRQ));
+  if (reuse == 1) { Op o = mk(1, OP_DEFINE); o.grammar = 1; p.ops.push_back(o); }
+  if (reuse == 2) {
+    Op o = mk(1, OP_PARSE); o.input = 1; o.alloc = AM_CUSTOM_FREE; p.ops.push_back(o);
+    if (p.inputs.size() > 2) { Op o2 = mk(1, OP_PARSE); o2.input = 2; o2.alloc = AM_DEFAULT; p.ops.push_back(o2); }
+  }
   p.ops.push_back(mk(1, OP_FREE_GRAMMAR));
   p.ops.push_back(mk(3, OP_CREATE));
   { Op o = mk(3, OP_DEFINE); o.grammar = 0; p.ops.push_back(o); }
@@ -63,7 +68,7 @@ std::vector<Scenario> build_corpus() {
       add_bystander_pre(s.plan);
       s.fault_ops.push_back((int)s.plan.ops.size());
       s.plan.ops.push_back(mk(1, OP_CREATE));
-      add_post(s.plan);
+      add_post(s.plan, 0);
       out.push_back(s);
     }
     // 2. definitions: good and defective, both routes
@@ -86,7 +91,7 @@ std::vector<Scenario> build_corpus() {
         s.fault_ops.push_back((int)s.plan.ops.size());
         { Op o = mk(1, OP_DEFINE); o.grammar = 1; s.plan.ops.push_back(o); }
       }
-      add_post(s.plan);
+      add_post(s.plan, 1);
       out.push_back(s);
     }
     // 3. parses
@@ -130,12 +135,14 @@ std::vector<Scenario> build_corpus() {
           if (!x.rec) s.plan.ops.push_back(mkset(1, S_RECOVERY, 0));
           if (la == 2 && am == 0) s.plan.ops.push_back(mkset(1, S_DEBUG, 3));
           { Op o = mk(1, OP_DEFINE); o.grammar = 1; s.plan.ops.push_back(o); }
-          if (la == 2) { // a second parse on the same object is a different path at lookahead 2
+          if (la == 2 && am != 0) { // a second parse on the same object is a different path at lookahead 2
             Op o = mk(1, OP_PARSE); o.input = 1; o.alloc = AM_CUSTOM_FREE; s.plan.ops.push_back(o);
           }
           s.fault_ops.push_back((int)s.plan.ops.size());
           { Op o = mk(1, OP_PARSE); o.input = 1; o.alloc = (AllocMode)am; s.plan.ops.push_back(o); }
-          add_post(s.plan);
+          // after the fault the struck object parses the same input again and a second, shorter one
+          if (x.in) { std::string sh(x.in); s.plan.inputs.push_back(chars(sh.substr(0, sh.size() / 2).c_str())); }
+          add_post(s.plan, 2);
           out.push_back(s);
         }
       }
